@@ -25,6 +25,19 @@ fn raise_fd_limit() -> u64 {
 }
 
 fn main() {
+    // A panic on the main thread (for instance while a strategy is being built) is a defect of
+    // the harness, never a statement about the property: say so and leave with 2.
+    match std::panic::catch_unwind(real_main) {
+        Ok(()) => {}
+        Err(_) => {
+            let msg = verif_harness::engine::LAST_PANIC.lock().map(|l| l.clone()).unwrap_or_default();
+            println!("INCONCLUSIVE: the harness itself panicked: {msg}");
+            std::process::exit(2);
+        }
+    }
+}
+
+fn real_main() {
     let args: Vec<String> = std::env::args().skip(1).collect();
     if args.is_empty() {
         usage();
